@@ -146,6 +146,27 @@ def subst_term(t, old, new):
         return tuple(subst_term(x, old, new) for x in t)
     return t
 
+def path_equalities(run_, r):
+    """Pairs (a, b) of normalised terms that a success path has established to be equal: a std PartialEq eq/ne call or a
+    primitive ==/!= whose EQUAL edge the path took (reference operands are dereferenced)."""
+    out = []
+    for g in r.path.guards:
+        raw, v = g["cond"], g["value"]
+        if not (isinstance(raw, tuple) and raw):
+            continue
+        if raw[0] == "call" and len(raw[2]) == 2 and "PartialEq" in raw[1] and raw[1].rsplit("::", 1)[-1] in ("eq", "ne"):
+            equal = (v == 1) if raw[1].endswith("::eq") else (v == 0)
+            ops_ = raw[2]
+        elif raw[0] == "binop" and len(raw) == 4 and raw[1] in ("Eq", "Ne"):
+            equal = (v == 1) if raw[1] == "Eq" else (v == 0)
+            ops_ = raw[2:4]
+        else:
+            continue
+        if equal:
+            a, b = (run_.norm.n(run_.interp.argval(r.path, x)) for x in ops_)
+            out.append((a, b))
+    return out
+
 def encode_decode_identity(world, crate, kind):
     """For every success path of HasKey<kind>::decode: HasKey<kind>::encode of the resulting key yields the input bytes."""
     from interp import Path
@@ -168,17 +189,25 @@ def encode_decode_identity(world, crate, kind):
             probs.append(f"encode has {len(rets)} return paths")
             continue
         out = erun.norm.n(erun.interp.argval(rets[0].path, rets[0].ret))
-        # equalities established by decode's guards (e.g. derived public key == embedded public key)
-        for g in r.path.guards:
-            c = drun.norm.n(g["cond"])
-            if isinstance(c, tuple) and c[0] == "call" and c[1].endswith("PartialEq>::ne") and g["value"] == 0 and len(c[2]) == 2:
-                a, b = c[2]
-                out = subst_term(out, a, b)
-                out = subst_term(out, ("ENCPUB", a), ("ENCPUB", b))
-        prev = None
-        while prev != out:
-            prev = out
-            out = strip_roundtrip(erun.norm, out)
+        # equalities established by decode's guards (e.g. derived public key == embedded public key), in any spelling
+        eqs = path_equalities(drun, r)
+        def close(o):
+            prev = None
+            while prev != o:
+                prev = o
+                o = strip_roundtrip(erun.norm, o)
+            return o
+        cands = [out]
+        for a, b in eqs:
+            nxt = []
+            for o in cands:
+                for x, y in ((a, b), (b, a)):
+                    o2 = subst_term(subst_term(o, x, y), ("ENCPUB", x), ("ENCPUB", y))
+                    if o2 not in nxt:
+                        nxt.append(o2)
+            cands = (cands + [o for o in nxt if o not in cands])[:16]
+        outs = [close(o) for o in cands]
+        out = ("in", "bytes") if ("in", "bytes") in outs else outs[0]
         if out != ("in", "bytes"):
             probs.append("encode(decode(bytes)) is not bytes (the key does not keep the supplied encoding): " + fmt_n(out)[:300])
     return (not probs), "; ".join(sorted(set(probs))), d
